@@ -82,6 +82,9 @@ var trTargets = []trTarget{
 	{Pkg: evm + "app/antedl/cosmoslane", Recv: "CLVestingMessagesAuthorizationDecorator", Name: "AnteHandle", EraseObj: true},
 	{Pkg: evm + "app/antedl/duallane", Recv: "DLValidateBasicDecorator", Name: "AnteHandle", EraseObj: true},
 	{Pkg: evm + "x/vauth/keeper", Recv: "msgServer", Name: "SubmitProofExternalOwnedAccount", EraseObj: true},
+	{Pkg: evm + "app/antedl/evmlane", Recv: "ELValidateBasicEoaDecorator", Name: "AnteHandle", EraseObj: true},
+	{Pkg: evm + "app/antedl/evmlane", Recv: "ELSetupExecutionDecorator", Name: "AnteHandle", EraseObj: true},
+	{Pkg: evm + "app/antedl/evmlane", Recv: "ELEmitEventDecorator", Name: "AnteHandle", EraseObj: true},
 }
 
 // ---------------------------------------------------------------------------------------------
@@ -402,6 +405,7 @@ type fnCtx struct {
 	nloop     int
 	retTy     string
 	idxRoot   map[*ast.IndexExpr]types.Object // elements of opaque slices bound to a name
+	valOrigin map[types.Object]pathVal        // byte-slice locals read from an object by a plain accessor
 	loopRoots []types.Object                  // opaque loop variables in scope
 }
 
@@ -523,6 +527,14 @@ func (f *fnCtx) pathOf(e ast.Expr) (pathVal, []ast.Expr, bool) {
 						}
 						p.segs[len(p.segs)-1] += "_" + strings.Join(append([]string{ap.root.Name()}, ap.segs...), "_")
 						continue
+					}
+					if id, ok := a.(*ast.Ident); ok {
+						if o := f.info.ObjectOf(id); o != nil {
+							if op, ok := f.valOrigin[o]; ok {
+								p.segs[len(p.segs)-1] += "_" + strings.Join(append([]string{op.root.Name()}, op.segs...), "_")
+								continue
+							}
+						}
 					}
 					// a package-level variable as argument (a fixed store key) names the accessor
 					if pv := pkgLevelVar(f.info, a); pv != "" {
